@@ -79,33 +79,59 @@ theorem Rep.assign {K : PCtx} {exitJ : Nat} (wf : K.WFS exitJ) {σ σ' : X.St} {
     (hr : Rep K σ mem) (hw : X.writeName K.xc σ n w = .ok σ') (hloc : K.loc n = some a) :
     Rep K σ' (mem.write a w) := by
   obtain ⟨ha2, halt, _⟩ := wf.loc_ok n a hloc
-  refine ⟨?_, fun m c hm => (hr.vals m c hm).write hw, ?_, ?_, ?_, ?_⟩
-  rotate_left 3
-  · intro m hv
-    apply hr.locs m
-    unfold IsVar at hv ⊢
-    rcases writeName_cases K.xc σ σ' n w hw with ⟨o, hl, rfl⟩ | ⟨hl, hg, rfl⟩
-    · simp only [lookup_setAssoc] at hv
+  have hv : IsVar K.xc σ n := by
+    unfold IsVar
+    rcases writeName_cases K.xc σ σ' n w hw with ⟨o, hl, _⟩ | ⟨hl, hg, _⟩
+    · exact Or.inl ⟨o, hl⟩
+    · exact Or.inr ⟨hl, hg⟩
+  have hbelow : a < K.sp + K.S := by
+    obtain ⟨a2, hl2, hlt2⟩ := hr.locs n hv
+    rw [hloc] at hl2
+    simp only [Option.some.injEq] at hl2
+    subst hl2
+    exact hlt2
+  exact {
+    sp := by rw [Mem.read_write_other _ _ _ _ (by omega)]; exact hr.sp
+    vals := fun m c hm => (hr.vals m c hm).write hw
+    vars := by
+      intro m w' hm hrd
       by_cases hmn : m = n
-      · subst hmn; exact Or.inl ⟨o, hl⟩
-      · simpa [hmn] using hv
-    · exact hv
-  · rw [Mem.read_write_other _ _ _ _ (wf.loc_ne_link n a hloc)]; exact hr.link
-  · rw [Mem.read_write_other _ _ _ _ (by omega)]; exact hr.sp
-  · intro m w' hm hrd
-    by_cases hmn : m = n
-    · subst hmn
-      have := readName_write_same K.xc σ σ' m w w' hw hrd
-      subst this
-      exact ⟨a, hloc, halt, Mem.read_write_same _ _ _ halt⟩
-    · rw [readName_write_other K.xc σ σ' n m w hw hmn] at hrd
-      obtain ⟨a', hloc', hlt', hv'⟩ := hr.vars m w' hm hrd
-      refine ⟨a', hloc', hlt', ?_⟩
-      rw [Mem.read_write_other _ _ _ _ (fun e => hmn (wf.loc_inj m n a' hloc' (by rw [← e]; exact hloc)))]
-      exact hv'
-  · intro v l j k hm hd
-    rw [Mem.read_write_other _ _ _ _ (fun e => wf.const_sep v l j k n a hm hd hloc e.symm)]
-    exact hr.consts v l j k hm hd
+      · subst hmn
+        have := readName_write_same K.xc σ σ' m w w' hw hrd
+        subst this
+        exact ⟨a, hloc, halt, Mem.read_write_same _ _ _ halt⟩
+      · rw [readName_write_other K.xc σ σ' n m w hw hmn] at hrd
+        obtain ⟨a', hloc', hlt', hv'⟩ := hr.vars m w' hm hrd
+        refine ⟨a', hloc', hlt', ?_⟩
+        rw [Mem.read_write_other _ _ _ _ (fun e => hmn (wf.loc_inj m n a' hloc' (by rw [← e]; exact hloc)))]
+        exact hv'
+    consts := by
+      intro v l j k hm hd
+      rw [Mem.read_write_other _ _ _ _ (fun e => wf.const_sep v l j k n a hm hd hloc e.symm)]
+      exact hr.consts v l j k hm hd
+    locs := by
+      intro m hv
+      apply hr.locs m
+      unfold IsVar at hv ⊢
+      rcases writeName_cases K.xc σ σ' n w hw with ⟨o, hl, rfl⟩ | ⟨hl, hg, rfl⟩
+      · simp only [lookup_setAssoc] at hv
+        by_cases hmn : m = n
+        · subst hmn; exact Or.inl ⟨o, hl⟩
+        · simpa [hmn] using hv
+      · exact hv
+    above := by
+      intro a' ha'
+      rw [Mem.read_write_other _ _ _ _ (by omega)]; exact hr.above a' ha'
+    gvis := by
+      intro m hm
+      rcases writeName_cases K.xc σ σ' n w hw with ⟨o, hl, rfl⟩ | ⟨hl, hg, rfl⟩
+      · simp only [lookup_setAssoc]
+        by_cases hmn : m = n
+        · subst hmn; have := hr.gvis m hm; rw [hl] at this; simp at this
+        · simp only [if_neg hmn]; exact hr.gvis m hm
+      · exact hr.gvis m hm
+    depth := by
+      rcases writeName_cases K.xc σ σ' n w hw with ⟨o, hl, rfl⟩ | ⟨hl, hg, rfl⟩ <;> exact hr.depth }
 
 /-- The store instruction(s) of an assignment. -/
 theorem exec_assignTail (K : PCtx) (exitJ : Nat) (wf : K.WFS exitJ) (n : String) (sym : Symbol) (i : Nat) (w b : Word)
